@@ -51,5 +51,5 @@ def check(res):
     genprop.run(res, "C09", PROPFILE, corpus, classify=classify, extra=lambda gr, r: check_placement(res, gr, r))
 
 
-PROPFILE = None
+PROPFILE = "theories/Properties/C09.v"
 replay = genprop.replay
